@@ -95,26 +95,30 @@ PostTable(tr) ==
    (IF Span(tab) # GG THEN {"state"} ELSE {})
    \cup (IF cost # tr.cost THEN {"cost"} ELSE {})
    \cup (IF MaxLvl(lvl) # tr.depth THEN {"depth"} ELSE {})
-   \cup (IF tr.cls >= 0 /\ IdOfGroup(tr.n, GG) # tr.cls THEN {"class"} ELSE {})
+   (* filed under class id = line index: the library's classifier files the graph state there (tr.filed), and the line of the *)
+   (* all-to-all table with the same index holds a graph of the same class                                                   *)
+   \cup (IF tr.cls >= 0 /\ (tr.filed # tr.cls \/ (tr.cls < Len(TableOf(tr.n, "all")) /\ KeyOfGraph(tr.n, TableOf(tr.n, "all")[tr.cls + 1][1]) # ClassKey(GG)))
+         THEN {"class"} ELSE {})
    \cup (IF tr.gates # tr.gates2 THEN {"parse"} ELSE {})
    \cup (IF tr.nlines # NumClasses(tr.n) THEN {"count"} ELSE {})
 
 PostApi(tr) ==      \* prep / readout / compress
    LET tg  == TargetOf(tr)
        ok  == ValidStabilizer(tr.n, tg)
-       id  == IF ok THEN IdOfGroup(tr.n, Span(tg)) ELSE -1
-       ent == IF id >= 0 /\ IsSupported(tr.n, tr.conn) THEN EntryOf(tr, id) ELSE <<-1, -1, -1>>
+       id  == IF ok THEN IdOfGroup(tr.n, Span(tg)) ELSE -1          \* only for the `classify` diagnostic (ids via get_graph)
+       ent == IF ok /\ IsSupported(tr.n, tr.conn) THEN EntryOfGroup(tr.n, tr.conn, Span(tg)) ELSE <<-1, -1, -1>>
+       has == ent[1] >= 0                                          \* the table has a line for the target's class
    IN
    IF tr.raised = 1 THEN (IF ok /\ IsSupported(tr.n, tr.conn) THEN {"raised"} ELSE {}) ELSE
    (IF tr.kind \in {"prep", "compress"} /\ ~(ok /\ SignedSpan(tab) = SignedSpan(tg)) THEN {"state"} ELSE {})
    \cup (IF tr.kind = "readout" /\ ~(ok /\ AllDiagonal) THEN {"diag"} ELSE {})
    \cup (IF tr.kind = "readout" /\ ~(Span(ApplySeqTab(Inverse(tr.gates), ZTab(tr.n))) = Span(tg)) THEN {"inverse"} ELSE {})
    \cup (IF tr.kind = "readout" /\ tr.hasalt = 1 /\ tr.alt # tr.gates THEN {"sign-dep"} ELSE {})
-   \cup (IF id < 0 THEN {"no-class"} ELSE {})
-   \cup (IF id >= 0 /\ cost # ent[2] THEN {"cost"} ELSE {})
-   \cup (IF id >= 0 /\ MaxLvl(lvl) # ent[3] THEN {"depth"} ELSE {})
+   \cup (IF ~has THEN {"no-class"} ELSE {})
+   \cup (IF has /\ cost # ent[2] THEN {"cost"} ELSE {})
+   \cup (IF has /\ MaxLvl(lvl) # ent[3] THEN {"depth"} ELSE {})
    \cup (IF tr.cls >= 0 /\ tr.cls # id THEN {"classify"} ELSE {})
-   \cup (IF tr.graph >= 0 /\ id >= 0 /\ <<tr.graph, tr.cost, tr.depth>> # ent THEN {"lookup"} ELSE {})
+   \cup (IF tr.graph >= 0 /\ has /\ <<tr.graph, tr.cost, tr.depth>> # ent THEN {"lookup"} ELSE {})
    \cup (IF Len(tr.layer) > 0 /\ tr.graph >= 0 /\ ~LayerSound(tr, tr.graph, tg) THEN {"layer"} ELSE {})
    \cup (IF tr.unchanged = 0 THEN {"args-mutated"} ELSE {})
 
@@ -127,7 +131,7 @@ PostMub(tr) ==
 (* state of the claimed class                                                                               *)
 PostWitness(tr) ==
    (IF cost # tr.cost THEN {"cost"} ELSE {})
-   \cup (IF IdOfGroup(tr.n, Span(tab)) # tr.cls THEN {"class"} ELSE {})
+   \cup (IF LineOfGroup(tr.n, tr.conn, Span(tab)) # tr.cls + 1 THEN {"class"} ELSE {})
 
 PostMeas(tr) ==
    (IF Len(tr.gates) < tr.preplen THEN {"prep-changed"} ELSE {})
@@ -150,7 +154,9 @@ Return ==
                     [] T.kind = "witness" -> PostWitness(T)
                     [] OTHER -> {"unknown-kind"}
           all == fails \cup post
-      IN PrintT(ToJson([v |-> tid, c |-> all, x |-> <<cost, MaxLvl(lvl)>>]))
+          line == IF T.kind \in {"prep", "readout", "compress"} /\ IsSupported(T.n, T.conn) /\ ValidStabilizer(T.n, TargetOf(T))
+                  THEN LineOfGroup(T.n, T.conn, Span(TargetOf(T))) ELSE 0          \* table line (1-based) of the target's class
+      IN PrintT(ToJson([v |-> tid, c |-> all, x |-> <<cost, MaxLvl(lvl), line>>]))
    /\ tid' = tid + 1 /\ l' = 0 /\ fails' = {}
    /\ UNCHANGED mvars
 
